@@ -51,13 +51,15 @@ def avl_insert_case(perm, cap, probe=True):
     return ops
 
 
-def avl_remove_case(ins_perm, rm_perm, cap):
+def avl_remove_case(ins_perm, rm_perm, cap, light=False):
     ops = ["ainit %d" % cap]
     for i, k in enumerate(ins_perm):
         ops.append("ains %d %d" % (k, 100 + i))
     ops.append("adump")
     for j, k in enumerate(rm_perm):
-        ops += ["arm %d" % k, "adump", "achk", "afind %d" % k]
+        ops += ["arm %d" % k, "adump", "achk"]
+        if not light:
+            ops.append("afind %d" % k)
         if j == len(rm_perm) // 2:
             ops += ["arm %d" % k, "aitems"]                           # second removal: not found
     ops.append("aitems")
@@ -85,20 +87,46 @@ def avl_exhaustive(ctx, hcmd, dcmd):
             shapes.setdefault((len(p), r["out"][-1]), p)
     ctx.cov["avl_shapes"] = len(shapes)
     casesB = []
+    big = []
     for (n, _), p in sorted(shapes.items()):
         if n == 0:
             continue
         if n <= n_rm:
             for rm in itertools.permutations(sorted(p)):
                 casesB.append(avl_remove_case(p, rm, (0, 3)[len(casesB) % 2]))
-        else:
+        elif quick:
             ks = sorted(p)
-            for _ in range(20 if quick else 600):
+            for _ in range(20):
                 rm = ks[:]
                 ctx.rng.shuffle(rm)
                 casesB.append(avl_remove_case(p, rm, (0, 3)[len(casesB) % 2]))
+        else:
+            big.append(p)
+    none_dir = os.path.join(vlib.VERIF, "corpus", "C09", "none")
     vlib.seq_correspondence(ctx, hcmd, dcmd, casesB, nontrivial=nontrivial, label="tieB-avl-remove-orders",
+                            corpus_dir=none_dir)
+    # thorough: every removal order of the 8-key shapes too, one shape at a time (memory)
+    for p in big:
+        batch = [avl_remove_case(p, rm, (0, 3)[i % 2], light=True)
+                 for i, rm in enumerate(itertools.permutations(sorted(p)))]
+        merged_correspondence(ctx, hcmd, dcmd, batch, "tieB-avl-remove-orders-8keys")
+        if ctx.violations or ctx.broken:
+            break
+
+
+def merged_correspondence(ctx, hcmd, dcmd, cases, label):
+    """seq_correspondence for one batch of a large family; the statistics of the batches
+    are summed under one label"""
+    tmp = label + "/batch"
+    vlib.seq_correspondence(ctx, hcmd, dcmd, cases, nontrivial=nontrivial, label=tmp,
                             corpus_dir=os.path.join(vlib.VERIF, "corpus", "C09", "none"))
+    b = ctx.cov["ties"].pop(tmp)
+    a = ctx.cov["ties"].setdefault(label, {})
+    for k, v in b.items():
+        if isinstance(v, int):
+            a[k] = a.get(k, 0) + v
+        else:
+            a.setdefault(k, v)
 
 
 def avl_random(ctx):
@@ -257,7 +285,22 @@ def hash_cases(ctx):
 # trie generators
 # ---------------------------------------------------------------------------
 
-def trie_cases(ctx):
+TRIE_PROBE = ["tinit 0", "tins 80 1", "tfind 80", "tins 61ff 2", "tfind 61ff", "trm 80", "tfind 80"]
+
+
+def trie_cases(ctx, high_ok=True):
+    """high_ok=False: the signed-index defect is present on this tree (the probe crashed); it is
+    reported once through the probe case and the other cases with bytes >= 0x80 are left out
+    (every one of them would crash the same way), so that the 7-bit behaviour is still checked."""
+    cases = trie_cases_all(ctx)
+    if high_ok:
+        return [TRIE_PROBE] + cases
+    kept = [c for c in cases if not has_high_byte_trie_key(c)]
+    ctx.cov["trie_high_byte_cases_skipped"] = len(cases) - len(kept)
+    return [TRIE_PROBE] + kept
+
+
+def trie_cases_all(ctx):
     rng = ctx.rng
     quick = ctx.quick
     cases = []
@@ -389,8 +432,7 @@ def main(ctx):
     ctx.assumptions += TRUSTED[2:]
     ctx.cov["rule"] = (
         "AVL: every insertion order of n<=6 (quick) / n<=8 (thorough) distinct keys with dump+check after "
-        "every insert, then for every distinct tree shape reached every removal order (n<=6 / n<=7, sampled "
-        "above) with dump+check after every removal, malloc and pool variants; random long mixed histories "
+        "every insert, then for every distinct tree shape reached every removal order (n<=6 / n<=8) with dump+check after every removal, malloc and pool variants; random long mixed histories "
         "(duplicates, absent keys, ascending/descending/zigzag builds, extreme keys). Hash: every op sequence "
         "of length L over 3 keys that collide, random long histories with colliding hashes and the library's "
         "default string hash over bytes 1..255. Trie: every op sequence of length L over key universes with "
@@ -411,7 +453,8 @@ def main(ctx):
                             label="tieB-avl-random", corpus_dir=none_dir)
     vlib.seq_correspondence(ctx, hcmd, dcmd, hash_cases(ctx), nontrivial=nontrivial,
                             label="tieB-hash", corpus_dir=none_dir)
-    vlib.seq_correspondence(ctx, hcmd, dcmd, trie_cases(ctx), nontrivial=nontrivial,
+    high_ok = vlib.run_one(hcmd, TRIE_PROBE)["crash"] is None
+    vlib.seq_correspondence(ctx, hcmd, dcmd, trie_cases(ctx, high_ok), nontrivial=nontrivial,
                             label="tieB-trie", corpus_dir=none_dir, signature_of=signature_of)
     vlib.seq_correspondence(ctx, hcmd, dcmd, malformed_cases(ctx), label="tieB-malformed",
                             corpus_dir=none_dir)
